@@ -29,7 +29,13 @@ type patReader struct {
 func (r *patReader) Read(p []byte) (int, error) {
 	n := len(p)
 	if len(r.pat) > 0 {
-		if k := r.pat[r.call%len(r.pat)]; k > 0 && k < n {
+		k := r.pat[r.call%len(r.pat)]
+		if k < 0 {
+			// a legal "no progress, no error" answer: io.ReadFull must simply ask again
+			r.call++
+			return 0, nil
+		}
+		if k > 0 && k < n {
 			n = k
 		}
 	}
@@ -64,7 +70,7 @@ func (r *patReader) Read(p []byte) (int, error) {
 
 func jobC14(c *rt.Ctx) {
 	c.Require("gen/ok", "gen/fail", "equal/flip", "equal/same", "equal/foreign", "accessor")
-	pats := [][]int{{0}, {1}, {31, 1}, {16, 16}, {33}, {64}, {7, 0}}
+	pats := [][]int{{0}, {1}, {31, 1}, {16, 16}, {33}, {64}, {7, 0}, {-1, 5}, {-1, -1, 32}}
 	stream := make([]byte, 96)
 	for i := range stream {
 		stream[i] = byte(i*11 + 5)
